@@ -1,7 +1,9 @@
 import Driver.Core
 import RrModel.Spec.C18
 import RrModel.Generated.Facts
-/- streams: sysr, kf.C18-a, kf.C18-b — restart_on_redirect on the uncached path (C18) -/
+/- streams: sysr, kf.C18-a, kf.C18-b — restart_on_redirect on the uncached path (C18); kf.C18-b is
+   the regression stream of the repaired finding C18-b (no class label any more: a failure there
+   is a violation) -/
 open Go Model Proto Model.Redirect Spec.C18
 
 namespace H.SysR
@@ -108,10 +110,11 @@ def hSysR : Handler := fun impl => do
   let start := nodes.findIdx? (·.path = pathOfUri target)
   let chain : ChainEnd := match start with | some s => chainEnd nodes nodes.length s | none => .unspecified
   let diverged : Bool := match out with | .diverged => true | _ => false
-  let buggyJoin := (hopsOf nodes hops).any fun (a, l, _) => inClass_C18_b (pathOfUri a.uri) l
-  let cls := ",".intercalate (
-    (if chain = .cycle ∧ diverged ∧ allRestart then ["C18-a"] else []) ++
-    (if buggyJoin ∧ allRestart then ["C18-b"] else []))
+  -- distribution label only: a relative Location merged below a directory other than the root
+  -- (the inputs of the repaired finding C18-b)
+  let deepJoin := (hopsOf nodes hops).any fun (a, l, _) =>
+    formOf l == .relative && baseDir (pathOfUri a.uri) != b!"/"
+  let cls := if chain = .cycle ∧ diverged ∧ allRestart then "C18-a" else ""
   let oracle :=
     if ¬ allRestart then "na" else
     match run pObs impl, start with
@@ -133,7 +136,7 @@ def hSysR : Handler := fun impl => do
      | .done .plainError cs => s!"self:500/h{cs.length}"
      | .done .panicked _ => "panic"
      | .done .outside _ => "outside") ++
-    (if buggyJoin then "+reljoin" else "") ++
+    (if deepJoin then "+reljoin" else "") ++
     (if hops.any (·.xhop ≠ []) then "+rule" else "")
   return { model := model, oracle := oracle, cls := if cls = "" then "-" else cls, label := label }
 
